@@ -377,12 +377,15 @@ CHECKS["C08"] = {
          "shards": {"quick": ["mainnet=0;txevents=0,1", "mainnet=1;txevents=0,1", "mainnet=0;txevents=2;failAt=0", "mainnet=1;txevents=2;failAt=0", "mainnet=1;txevents=2;failAt=1,2,3,4,5;cl=1"],
                     "thorough": ["mainnet=%d;txevents=%s" % (m, t) for m in (0, 1) for t in ("0,1", "2")]},
          "timeout": {"quick": 2400, "thorough": 30000}},
+        {"pkg": "./pkg/alephium", "entry": "VerifC08_Attest", "reach": ["attestation-kept", "attestation-dropped"], "opts": _ALPH_OPTS,
+         "shards": {"quick": ["plen=99,101", "plen=100;alphToken=1"] + ["plen=100;alphToken=0;path=%d;cdec=%s" % (pa, c) for pa in (0, 1) for c in ("8", "0,18", "255,256")]}},
     ],
-    "bounds": {"quick": {"predicate": "isEventConfirmed for every height/timestamp/clock/consistency level/network/payload kind (heights < 2^30, times < 2^52 ms)",
+    "bounds": {"quick": {"attestation": "one attestation event on the polling path (handleUnconfirmedEvents) or the re-observation path (getGovernanceEventsByTxId): payload length 99/100/101, token chain id, decimals byte, 4 symbol bytes and 2 name bytes symbolic, ALPH token or a token contract in a symbolic group; the token contract reports 4 symbolic symbol bytes, 2 symbolic name bytes and one of the decimals numerals 0, 8, 18, 255, 256",
+                         "predicate": "isEventConfirmed for every height/timestamp/clock/consistency level/network/payload kind (heights < 2^30, times < 2^52 ms)",
                          "polling": "one batch of 1..2 events in two blocks (consistency level, payload kind symbolic; bridge or foreign caller) and 1..2 height ticks (mainnet: two events with one tick, one event with two ticks); per tick: arbitrary chain height, arbitrary canonicity of each block (reorg out and back in), arbitrary non-decreasing clock, optional node API failure",
                          "re-observation": "one request; node answers: tx confirmed or pending, 0..2 events each {governance contract | other contract, event index 0|1, bridge | foreign caller, transfer | other payload, consistency level 0|1|10}, symbolic block height/timestamp/current height, canonical or orphaned, failure of any one of the five node calls"},
                "thorough": {"polling": "up to 3 events and 3 ticks"}},
-    "outside": "the HTTP client and the SDK's JSON decoding (every Client method is replaced, in both builds, by a scenario function through a mechanically inserted hook prologue); real tickers; attestation metadata comparison on these paths (C09/C11 cover GetTokenInfo and parseAttestToken); more than one re-observation request; int32 wrap of heights above 2^30",
+    "outside": "the HTTP client and the SDK's JSON decoding (every Client method is replaced, in both builds, by a scenario function through a mechanically inserted hook prologue); real tickers; symbols longer than 4 and names longer than 2 bytes in the attestation entry; the base58 rendering of the token contract address (opaque); more than one re-observation request; int32 wrap of heights above 2^30",
     "assumptions": ["cooperative goroutines; channels as FIFO queues", "clock: time.Now() in watcher.go/reobserve.go redirected to the harness clock; UnixMilli of a clock reading is its own non-decreasing variable",
                     "encoding/json.Marshal (log fields) opaque; zap/prometheus no-ops; pkg/alephium loaded through the stripped-p2p.Run overlay"],
 }
